@@ -16,6 +16,7 @@ import os
 import sys
 
 import z3
+from .values import FA
 
 from .values import *
 from .pytypes import *
@@ -384,7 +385,7 @@ def apply_havoc(eng, st: State, entry: State, assigned, cl_changed, writes, ctr_
             nm = st.fresh("hm", cur.sort())
             r = z3.Int("fr!")
             conds = [r <= entry.alloc] + [r != s for s in uniq]
-            st.assume(z3.ForAll([r], z3.Implies(z3.And(conds), z3.Select(nm, r) == z3.Select(cur, r)),
+            st.assume(FA([r], z3.Implies(z3.And(conds), z3.Select(nm, r) == z3.Select(cur, r)),
                                 patterns=[z3.Select(nm, r)]))
             st.heap[key] = nm
     na = st.fresh("alloc", z3.IntSort())
